@@ -19,7 +19,7 @@ func init() {
 
 func runC09(c *core.Ctx) {
 	runFixtures(c, "valid", "drop")
-	c.Explain("Structural clauses of C09 decided from source on linux, windows and darwin builds of package hackpadfs/os: (R09.1) every call to a path-taking function of the standard os package receives, as each path operand, the first result of the name→OS-path mapping (rootedPath/toOSPath), at a point dominated by that call's nil-error edge — no raw name reaches the kernel; (R09.2) the mapping validates before it joins and joins path.Join(\"/\", root, name) in that order, so the result is root-prefixed; (R09.3) every non-error return of the reverse mapping returns the constant \".\" or a value tested by ValidPath on the way; (R09.4) the root-prefix test of the reverse mapping respects element boundaries (root+\"/\" or equality); (R09.5) every error produced by a standard os function or *os.File method leaves package os only through the translator that rewrites OS paths into FS-relative names; (R09.6) the exported reverse mapping refuses non-absolute paths before converting; (R09.7) no strings.Replace/ReplaceAll in package os deletes (replaces by the empty string) a non-constant pattern — the root's OS path is taken off a reported path with TrimPrefix only, so a name that contains the root's text again further down ('backup/data/x' under root 'data') is reported intact. NOT claimed: ToOSPath∘FromOSPath = id (string arithmetic), volume handling on real Windows paths beyond these shapes.")
+	c.Explain("Structural clauses of C09 decided from source on linux, windows and darwin builds of package hackpadfs/os: (R09.1) every call to a path-taking function of the standard os package receives, as each path operand, the first result of the name→OS-path mapping (rootedPath/toOSPath), at a point dominated by that call's nil-error edge — no raw name reaches the kernel; (R09.2) the mapping validates before it joins and joins path.Join(\"/\", root, name) in that order, so the result is root-prefixed; (R09.3) every non-error return of the reverse mapping returns the constant \".\" or a value tested by ValidPath on the way; (R09.4) the root-prefix test of the reverse mapping respects element boundaries (root+\"/\" or equality); (R09.5) every error produced by a standard os function or *os.File method leaves package os only through the translator that rewrites OS paths into FS-relative names; (R09.6) the exported reverse mapping refuses non-absolute paths before converting; (R09.7) no strings.Replace/ReplaceAll in package os deletes (replaces by the empty string) a non-constant pattern — the root's OS path is taken off a reported path with TrimPrefix only, so a name that contains the root's text again further down ('backup/data/x' under root 'data') is reported intact; (R09.8) a method of os.FS that builds a new os.FS (Sub) stores into every string field of the new value something derived from the receiver's same field — a volume name left at the constructor's default moves the view to another volume. NOT claimed: ToOSPath∘FromOSPath = id (string arithmetic), volume handling on real Windows paths beyond these shapes.")
 	c.Assume("A2: standard os/path/filepath functions behave as documented")
 	c.RuleDoc("R09.1", "only mapped paths reach standard os calls, on the mapping's success edge")
 	c.RuleDoc("R09.2", "mapping = validate, then path.Join(\"/\", root, name)")
@@ -27,6 +27,7 @@ func runC09(c *core.Ctx) {
 	c.RuleDoc("R09.4", "root prefix test respects element boundaries")
 	c.RuleDoc("R09.5", "standard os errors pass through the translator")
 	c.RuleDoc("R09.6", "FromOSPath requires an absolute path")
+	c.RuleDoc("R09.8", "a view built from an os.FS keeps every string configuration field of its parent")
 	c.RuleDoc("R09.7", "roots and volume names are removed from a path only as a prefix")
 	for _, p := range c.Progs {
 		c.SetProg(p)
@@ -46,6 +47,7 @@ func runC09(c *core.Ctx) {
 		r09Reverse(c, p, rev)
 		r09Errors(c, p)
 		r09PrefixOnly(c, p)
+		r09SubKeepsConfig(c, p)
 		r09Abs(c, p, rev)
 		for _, v := range prefixTests(p, rev) {
 			c.Check(v.ok, "R09.4", "os.fromOSPath|"+v.key, v.pos, v.msg, v.msg)
@@ -58,6 +60,7 @@ func runC09(c *core.Ctx) {
 	c.Floor("R09.5", 30)
 	c.Floor("R09.6", 1)
 	c.Floor("R09.7", 1)
+	c.Floor("R09.8", 2)
 }
 
 func isStdOSFunc(fn *ssa.Function) bool {
@@ -434,5 +437,106 @@ func r09PrefixOnly(c *core.Ctx, p *load.Program) {
 			c.Check(!bad, "R09.7", key, p.Pos(cl.Pos()), "replaces one separator convention by the other (constants), deletes nothing",
 				fmt.Sprintf("%s deletes every occurrence of the non-constant pattern %s from a path: a root or volume name may only be taken off the front (strings.TrimPrefix) — a name that contains the root's OS path again further down is reported with that part missing", fname(fn), vname(cl.Call.Args[1])))
 		})
+	}
+}
+
+// r09SubKeepsConfig (R09.8): a view that a method of the OS-backed FS builds from its receiver carries every string
+// configuration field of the receiver along (the root through the join, the volume name as it is): a field that is
+// left at its constructor default makes the view map names onto another volume.
+func r09SubKeepsConfig(c *core.Ctx, p *load.Program) {
+	n := p.Named("os", "FS")
+	if n == nil {
+		c.Hard("anchor: os.FS")
+		return
+	}
+	st, ok := n.Underlying().(*types.Struct)
+	if !ok {
+		return
+	}
+	var cfg []string
+	for i := 0; i < st.NumFields(); i++ {
+		if isStr(st.Field(i).Type()) {
+			cfg = append(cfg, st.Field(i).Name())
+		}
+	}
+	for name, fn := range methodsOf(p, n) {
+		if fn.Blocks == nil {
+			continue
+		}
+		// builds a new os.FS: an Alloc of the struct, or a call of a module constructor returning *FS
+		builds := false
+		ssax.Instrs(fn, func(ins ssa.Instruction) {
+			switch x := ins.(type) {
+			case *ssa.Alloc:
+				if nn := namedOfPtr(x.Type()); nn != nil && types.Identical(nn, n) && x.Heap {
+					builds = true
+				}
+			case *ssa.Call:
+				if callee := ssax.StaticCallee(x); callee != nil && p.InModule(callee) && callee.Signature.Recv() == nil && callee.Signature.Results().Len() >= 1 {
+					if nn := namedOfPtr(callee.Signature.Results().At(0).Type()); nn != nil && types.Identical(nn, n) {
+						builds = true
+					}
+				}
+			}
+		})
+		if !builds {
+			continue
+		}
+		recv := recvParam(fn)
+		for _, f := range cfg {
+			key := fmt.Sprintf("(*os.FS).%s|view-keeps:%s", name, f)
+			kept := false
+			ssax.Instrs(fn, func(ins ssa.Instruction) {
+				stv, ok := ins.(*ssa.Store)
+				if !ok {
+					return
+				}
+				fa, ok := stv.Addr.(*ssa.FieldAddr)
+				if !ok || ssax.FieldName(fa) != f || fa.X == ssa.Value(recv) {
+					return
+				}
+				if dependsOn(stv.Val, func(v ssa.Value) bool { return isLoadOfField(v, recv, f) }) {
+					kept = true
+				}
+				// through the variadic slice of path.Join
+				if jc, ok := stv.Val.(*ssa.Call); ok && ssax.CalleeIs(jc, "path", "Join") {
+					for _, e := range variadicElems(jc.Call.Args[0]) {
+						if isLoadOfField(e, recv, f) {
+							kept = true
+						}
+					}
+				}
+			})
+			// or the receiver's field is known to be empty where the new value is built (SubVolume refuses otherwise)
+			ssax.Instrs(fn, func(ins ssa.Instruction) {
+				a, ok := ins.(*ssa.Alloc)
+				if !ok || !a.Heap {
+					return
+				}
+				if nn := namedOfPtr(a.Type()); nn == nil || !types.Identical(nn, n) {
+					return
+				}
+				for _, fct := range ssax.FactsAtInstr(a) {
+					bo, ok := fct.Cond.(*ssa.BinOp)
+					if !ok || (bo.Op != token.EQL && bo.Op != token.NEQ) {
+						continue
+					}
+					var other ssa.Value
+					if isLoadOfField(bo.X, recv, f) {
+						other = bo.Y
+					} else if isLoadOfField(bo.Y, recv, f) {
+						other = bo.X
+					}
+					if other == nil {
+						continue
+					}
+					if sv, isC := ssax.ConstString(other); isC && sv == "" && (bo.Op == token.EQL) == fct.Val {
+						kept = true
+					}
+				}
+			})
+			c.Check(kept, "R09.8", key, p.Pos(fn.Pos()), "the new view's "+f+" derives from the receiver's (or the receiver's is known empty)",
+				fmt.Sprintf("%s builds a new os.FS whose %s does not come from the receiver's %s (it keeps the constructor's default): a Sub view of an FS on volume D: maps its names onto the default volume, and FromOSPath of the right path is refused", fname(fn), f, f))
+		}
 	}
 }
